@@ -2,11 +2,12 @@
     quadrature part of pygyro/splines/splines.py (BSplines._build_integrals), over the abstract field
     of SplineModel.v (record [sp_ops]; executed at [Qc], see InterpQc.v).
 
-    - a collocation row is written exactly as [collocation_matrix] writes it: span, basis, then the
-      numpy assignment  mat[i, js(span)] = basis  with columns span-p .. span (clamped: a slice, a
-      shape mismatch is an error) or (span-p+s) % nb (periodic: a list of columns, the LAST write
-      wins when columns repeat) - this is [CollocRow.row], the definition about which
-      [row_dot_is_eval] is proved;
+    - a collocation row is written exactly as [collocation_matrix] writes it: span, basis, then
+      np.add.at(mat[i], js(span), basis)  with columns span-p .. span (clamped: a slice, a shape
+      mismatch is an error) or (span-p+s) % nb (periodic: a list of columns; basis values that wrap onto
+      the same column are ADDED, which happens when ncells <= degree) - [ip_row_acc], in gather form:
+      column k receives the sum of the basis values whose column is k.  (The pinned tree assigned
+      mat[i, js(span)] = basis, where the last write wins: [CollocRow.row]; see InterpQc.ipq_lww_row.);
     - [ip_lin_solve] stands for LAPACK ?gbtrf/?gbtrs and SuperLU: Gaussian elimination with back
       substitution FOLLOWED BY the check A.X = B; when the check fails (singular matrix) the result is
       an error, so the specification of the solver holds by construction and nothing has to be proved
@@ -15,7 +16,10 @@
       computes the candidate with the solver itself;
     - knots and interpolation points are INPUTS (the harness passes the code's own float knots and
       Greville points converted exactly), [ncells] / [nbasis] are derived from the knots as
-      BSplines.__init__ derives them. *)
+      BSplines.__init__ derives them.
+
+    The model follows the tree with the repairs 6a5dc09 (collocation rows accumulate) and 38b0bf4
+    (integrals of the wrapped periodic basis functions computed, not mirrored). *)
 From Coq Require Import List Arith Lia ZArith Bool.
 Import ListNotations.
 From PGV Require Import BasisCoxDeBoor FindSpan CubicUniform CollocRow Sums SplineModel.
@@ -159,9 +163,13 @@ Definition ip_eval2d (k1 : list F) (d1 : nat) (k2 : list F) (d2 : nat) (cubic : 
 Definition ip_col (nb degree span : nat) (periodic : bool) (j : nat) : nat :=
   if periodic then ((span - degree + j) mod nb)%nat else (span - degree + j)%nat.
 
-(** mat[i, js(span)] = basis  on a row of zeros: numpy writes the columns in order, the last write wins *)
+(** np.add.at(mat[i], js(span), basis) on a row of zeros, gather form: column k receives the sum of the
+    basis values b_j whose column idx j is k (unbuffered accumulation: repeated columns add up) *)
+Definition ip_row_acc (idx : nat -> nat) (b : nat -> F) (p : nat) (k : nat) : F :=
+  ip_sum (S p) (fun j => if (idx j =? k)%nat then b j else 0).
+
 Definition ip_row_of (nb degree span : nat) (periodic : bool) (basis : list F) : list F :=
-  ip_vtab nb (row F 0 (ip_col nb degree span periodic) (fun j => nth j basis 0) degree).
+  ip_vtab nb (ip_row_acc (ip_col nb degree span periodic) (fun j => nth j basis 0) degree).
 
 Definition ip_colloc_row (nb : nat) (knots : list F) (degree : nat) (periodic cubic : bool) (x : F)
   : sp_res (list F) :=
@@ -280,9 +288,8 @@ Definition ip_integrals (knots : list F) (degree : nat) (periodic cubic : bool) 
       SpOk (w 2%nat (w 1%nat (w 0%nat (repeat dx len)))))))
   else
     let kx := sp_kn F K knots 0 :: knots ++ [last knots 0] in
-    sp_bind (sp_mapM (ip_integral_general knots kx d) (seq 0 n)) (fun I =>
-    if periodic then SpOk (I ++ map (fun i => nth (d - i - 1) I 0) (seq 0 d))   (* integrals[n+i] = integrals[d-i-1] *)
-    else SpOk I).
+    (* for i in range(self.ncells + d): every unwrapped piece by the same formula (no mirroring) *)
+    sp_mapM (ip_integral_general knots kx d) (seq 0 (nc + d)).
 
 (* ------------------------------------------------------------------------------------------ *)
 (** * SplineInterpolator1D.get_quadrature_coefficients *)
